@@ -99,6 +99,41 @@ func (c19) Generate(r *engine.Rand, index int, tier string) *engine.Scenario {
 		sc.Cycles = at + uint64(period)*8192*uint64(r.Range(2, 5))
 		return sc
 	}
+	if index%16 == 3 {
+		// directed: a note plays out (length counter at zero, length register not rewritten), the sound
+		// unit is power-cycled, length counting is enabled with or without a trigger and the channel is
+		// started by NRx4 alone: the counter a power cycle leaves behind is the one that was there
+		sc.Class = "expired-then-power-cycle"
+		ch := r.Intn(4)
+		nrx1 := []uint16{0xff11, 0xff16, 0xff1b, 0xff20}[ch]
+		nrx2 := []uint16{0xff12, 0xff17, 0xff1a, 0xff21}[ch]
+		nrx4 := []uint16{0xff14, 0xff19, 0xff1e, 0xff23}[ch]
+		at := uint64(r.Range(10, 5000))
+		add := func(a uint16, v uint8) {
+			sc.Events = append(sc.Events, engine.Event{At: at, K: "bus_w", A: a, V: v})
+			at += uint64(r.Range(1, 30))
+		}
+		add(nrx2, 0xf0)
+		add(nrx1, 0xff&^uint8(r.Intn(3)))
+		add(nrx4, 0xc0)
+		at += uint64(r.Range(3, 6)) * 4096
+		add(0xff26, 0x00)
+		at += uint64(r.Range(1, 9000))
+		add(0xff26, 0x80)
+		add(nrx2, 0xf0)
+		for i, n := 0, r.Range(1, 3); i < n; i++ {
+			at += uint64(r.Range(1, 9000))
+			add(nrx4, engine.Pick(r, []uint8{0x40, 0x40, 0xc0, 0x80, 0x00}))
+		}
+		at += uint64(r.Range(1, 9000))
+		add(nrx4, 0xc0)
+		max := uint64(64)
+		if ch == 2 {
+			max = 256
+		}
+		sc.Cycles = at + (max+2)*4096
+		return sc
+	}
 	if index%16 == 13 {
 		// directed: the sweep unit works on its own copy of the frequency, taken at the trigger (and at
 		// its own write-backs): the frequency registers rewritten afterwards without a trigger, NR10
